@@ -15,8 +15,15 @@
   slot never moves and only grows, the code size never changes.
   A seeded change that computed Filesz incrementally (`Filesz += sigStart + sigSize − codeSize`) breaks
   `linkedit_arith_exact` exactly when a signed image's slot has to grow: witness `incremental_filesz_overshoots`.
+
+  The two guards of the current tree in a history (`macho_resign_scan_guard_inert`, `macho_round_guard`): on relic's own output
+  the slack test of `scanFile` (fix F-MACHO-4) never fires — the image carries an LC_CODE_SIGNATURE command —, and the size
+  test of `Sign` (fix F-MACHO-3) either refuses the round outright (slot has to grow beyond 10^7 bytes: nothing is written,
+  the artifact stays as it was) or leaves the round exactly as described by `LState.resign`.
 -/
 import Relic.Proofs.MachOLinkedit
+import Relic.Proofs.MachOGuards
+import Relic.Proofs.MachODemo
 namespace Relic.Props.C08
 open Relic Relic.MachO Relic.Binpatch
 
@@ -308,6 +315,33 @@ def macho_history_bytes_full : Prop :=
     (lcOf pl.m + 16 ≤ pl.m.lePos + 28 ∨ pl.m.lePos + 56 ≤ lcOf pl.m) →
     signedFile f pl.po blob = .ok g → scan g = .ok m' →
     LState.ofMarkers m' g.length = (LState.ofMarkers pl.m f.length).resign (estimateOf pl.m hashSize entLen reqLen).toNat
+
+/-- **macho_resign_scan_guard_inert.**  On an image that carries an LC_CODE_SIGNATURE command — every output of `machos.Sign`
+    does — the test added to `scanFile` by fix F-MACHO-4 (`len(dat) != 0 && f.loadCsStart == 0`) does not fire: what the
+    scan answers on re-signing is what it answered before the fix (`LState.scanRefuses` = the coterminous test, remains the
+    only refusal of the scan in a history). -/
+theorem macho_resign_scan_guard_inert (f : Bytes) (m : Markers) (h : scanOrig f = .ok m) (hcs : m.loadCsStart ≠ 0) :
+    scan f = .ok m :=
+  (scan_ok_iff f m).mpr ⟨h, fun c => hcs c.2⟩
+
+/-- **macho_round_guard.**  One signing round of the current tree on an image its scan accepts (estimate within int64):
+    either the size test of fix F-MACHO-3 fires — the slot would have to grow (`sigLen < estimate`) beyond 10^7 bytes — and
+    the round is refused before anything is patched, or the round is the one of the tree before the fix, i.e. the step
+    `LState.resign` (`patch_simulates_resign`). -/
+theorem macho_round_guard (f : Bytes) (m : Markers) (hashSize entLen reqLen : Nat) (h : scan f = .ok m)
+    (hr : ¬ estRange m hashSize) :
+    (sizeGuard m (estI m hashSize entLen reqLen) ∧ plan f hashSize entLen reqLen = .err "signtoolarge") ∨
+    (¬ sizeGuard m (estI m hashSize entLen reqLen) ∧ plan f hashSize entLen reqLen = planOrig f hashSize entLen reqLen) := by
+  rw [plan_of_scan' f m _ _ _ h, if_neg hr]
+  by_cases hg : sizeGuard m (estI m hashSize entLen reqLen)
+  · exact Or.inl ⟨hg, by rw [if_pos hg]⟩
+  · exact Or.inr ⟨hg, by rw [if_neg hg, plan_of_scan f m _ _ _ (scan_orig_of_scan f m h)]⟩
+
+/-- hypotheses satisfiable: a signed image (LC_CODE_SIGNATURE at 104), and markers on which the size test fires / does not -/
+example : scanOrig (C01.Demo.fSigned 16) = .ok (C01.Demo.mSigned 16) ∧ (C01.Demo.mSigned 16).loadCsStart ≠ 0 ∧
+    scan (C01.Demo.fSigned 16) = .ok (C01.Demo.mSigned 16) ∧ ¬ estRange (C01.Demo.mSigned 16) 32 ∧
+    ¬ sizeGuard (C01.Demo.mSigned 16) (estI (C01.Demo.mSigned 16) 32 0 0) :=
+  ⟨C01.Demo.scan_fOld, by decide, C01.Demo.scanNew_fOld, by decide, by decide⟩
 
 /-- the seeded variant of `patchLinkEdit`: `Filesz += sigStart + sigSize − codeSize` -/
 def resignIncremental (est : Nat) (s : LState) : LState :=
